@@ -20,9 +20,9 @@ From Coq Require Import Permutation.
 Definition ren_of (mapping : dict label) (prefix : string) (l : label) : label :=
   match dget mapping l with Some t => t | None => (prefix ++ l)%string end.
 
-Lemma dmem_false_get {V} (d : dict V) k : dmem d k = false <-> dget d k = None.
+Lemma dmem_false_iff {V} (d : dict V) k : dmem d k = false <-> dget d k = None.
 Proof. unfold dmem; destruct (dget d k); split; congruence. Qed.
-Lemma dmem_true_get {V} (d : dict V) k : dmem d k = true <-> exists v, dget d k = Some v.
+Lemma dmem_true_iff {V} (d : dict V) k : dmem d k = true <-> exists v, dget d k = Some v.
 Proof. unfold dmem; destruct (dget d k); split; try congruence; eauto. intros [v Hv]; discriminate. Qed.
 
 Lemma map_list_ren (m : dict label) (ren : label -> label) ls r :
@@ -98,7 +98,7 @@ Section Loop.
     2:{ (* a gate of other that is not a connector: new label *)
       cbv zeta in H. binv H ops Hops. binv H cur' Hc. injection H as <-.
       apply emplace_gate_inv in Hc. destruct Hc as (Hnl & Hex & ->).
-      apply dmem_false_get in Em. pose proof (ren_unmapped l Em) as Rl.
+      apply dmem_false_iff in Em. pose proof (ren_unmapped l Em) as Rl.
       assert (Io' : forall o t, dget (dset o2n l (prefix ++ l)%string) o = Some t -> t = ren o).
       { intros o t Ho. rewrite dget_dset in Ho. destruct (leqb_spec o l) as [->|Hne].
         - injection Ho as <-. symmetry; exact Rl.
@@ -126,7 +126,7 @@ Section Loop.
         + destruct (Iy x Hx) as [Hb|(l' & Hin & Hm & E)]; [left; exact Hb|right].
           exists l'; split; [apply in_or_app; left; exact Hin|]. split; assumption.
       - rewrite filter_app_one, map_app. unfold blk_member at 2. rewrite Hig.
-        assert (E0 : dmem mapping l = false) by (apply dmem_false_get; exact Em).
+        assert (E0 : dmem mapping l = false) by (apply dmem_false_iff; exact Em).
         rewrite E0, orb_true_r; simpl andb.
         destruct (gtype_beq (gtyp g) INPUT); simpl; [rewrite app_nil_r; exact Ik|rewrite Ik; reflexivity].
       - rewrite emplace_raw_outputs; exact Iu.
@@ -135,10 +135,10 @@ Section Loop.
     2:{ (* left connection, connector: nothing happens *)
       injection H as <-. simpl. constructor; auto.
       - intros l' g' Hin Hg' Hcp. apply in_app_or in Hin. destruct Hin as [Hin|[<-|[]]]; [eapply Ic; eassumption|].
-        exfalso. destruct Hcp as [Hcp|Hcp]; [congruence|]. apply dmem_false_get in Hcp. congruence.
+        exfalso. destruct Hcp as [Hcp|Hcp]; [congruence|]. apply dmem_false_iff in Hcp. congruence.
       - intros b gb Hb Hh. apply Ib; [exact Hb|]. intros (Hr & _); congruence.
       - intros l' Hin Hm. apply in_app_or in Hin. destruct Hin as [Hin|[<-|[]]]; [apply If; assumption|].
-        apply dmem_false_get in Hm; congruence.
+        apply dmem_false_iff in Hm; congruence.
       - intros x Hx. destruct (Iy x Hx) as [Hb|(l' & Hin & Hm & E)]; [left; exact Hb|right].
         exists l'; split; [apply in_or_app; left; exact Hin|]. split; assumption.
       - rewrite filter_app_one. unfold blk_member at 2. rewrite Em, Er; simpl. rewrite app_nil_r. exact Ik. }
@@ -148,7 +148,7 @@ Section Loop.
     injection Hnl as Hnl; subst nl0. pose proof (Io l nl El) as Enl. subst nl.
     destruct (dget (gates cur) (ren l)) as [old0|] eqn:Eold; [|discriminate].
     injection Hold as Hold; subst old0.
-    apply dmem_true_get in Em. destruct Em as [t Emt]. pose proof (ren_mapped l t Emt) as Rl.
+    apply dmem_true_iff in Em. destruct Em as [t Emt]. pose proof (ren_mapped l t Emt) as Rl.
     pose proof (map_list_ren _ ren _ _ Io Hops) as Eops. subst ops.
     destruct (overwrite_frame cur (ren l) old (gtyp g) (map ren (gops g))) as (Fg & _ & Fo & Fb).
     assert (Hmono : forall x, has_gate cur x = true -> has_gate (overwrite cur (ren l) old (gtyp g) (map ren (gops g))) x = true).
@@ -348,7 +348,7 @@ Proof.
       exists l, g. split; [exact Hg|]. split.
       * unfold is_input_gate in Hm2. rewrite Hg in Hm2. intros E. rewrite E in Hm2. discriminate.
       * split; [|reflexivity]. unfold copied. destruct right; [left; reflexivity|right].
-        simpl in Hm1. apply negb_true_iff in Hm1. apply dmem_false_get, Hm1.
+        simpl in Hm1. apply negb_true_iff in Hm1. apply dmem_false_iff, Hm1.
     + intros (l & g & Hg & Ht & Hcp & ->).
       assert (Hl : In l order) by (apply Hin_order; eapply get_has_gate; exact Hg).
       split.
@@ -356,7 +356,7 @@ Proof.
         eapply get_has_gate. eapply Ic; eassumption.
       * exists l; split; [reflexivity|]. apply filter_In. split; [exact Hl|].
         unfold blk_member. apply andb_true_iff; split.
-        -- destruct Hcp as [->|Hcp]; [reflexivity|]. apply dmem_false_get in Hcp. rewrite Hcp. apply orb_true_r.
+        -- destruct Hcp as [->|Hcp]; [reflexivity|]. apply dmem_false_iff in Hcp. rewrite Hcp. apply orb_true_r.
         -- unfold is_input_gate. rewrite Hg. apply negb_true_iff.
            destruct (gtype_beq (gtyp g) INPUT) eqn:E; [apply gtype_beq_eq in E; contradiction|reflexivity].
   - exact Htc.
